@@ -572,6 +572,7 @@ func C01(c *Ctx) {
 	c.R.Rule("C01-R9", "E3", "the variable predicates mean what the documentation says", 2)
 	c.shareRule("C02", "C02-R7", "C01-R13", "every key of the pattern is present in the message: presence is decided by the lookup's ok flag, not by the value found (an absent key reads as null)")
 	c.shareRule("C03", "C03-R1", "C01-R11", "an answer is about the pattern and message of this call: the matcher keeps nothing between calls (a memo answers for another pattern)")
+	c.shareRule("C02", "C02-R2", "C01-R17", "distinct pattern elements are matched to distinct message elements: the element an alternative matched is the one removed, from that alternative's own copy of the candidates")
 	c.R.Rule("C01-R12", "E5+E3", "a pattern string is compared with a message string only once it is known to be a constant", 1)
 	c.R.Rule("C01-R10", "E3+E5", "a pattern array's variable and constants are what getVariable found, and a variable is matched by arraycatMatch before the array case succeeds", 4)
 	c01ArrayVariable(c, "C01-R10")
